@@ -215,6 +215,73 @@ Proof. exact h5_unit_inputs. Qed.
 Print Assumptions C10_main_unit_inputs.
 End ScalingFamily.
 
+(** *** (strengthening F5-I) the chain  bending radius -> radiation loss V0 -> effective voltage -> synchrotron frequency ->
+    natural bunch length ("Meter") / time step / revolutionpart ("Volt", "Turn", "Second")  over the definitions GENERATED
+    from main() on every run, against the machine quantities implied by the parameters stored in the file
+    (Model/MachineSpec.v: spec functions).  [gen_R_bend] is what the impedance models receive, [gen_sinrf_V0] /
+    [gen_sinrf_V_RF] what the sinusoidal RF map receives (V0, V_eff), [gen_ps_Meter] / [gen_ps_ElectronVolt] what main()
+    passes for the PhaseSpace constructor parameters that become the "Meter" scale of axis 0 / the "ElectronVolt" scale
+    of axis 1 (the pairing is read from the constructor), which the HDF5File constructor writes as the attributes. *)
+From Inovesa Require Model.MachineSpec Proofs.ScalingMachineP.
+Module MachineChain.
+Import ScalingOps Gen_Scaling MachineSpec ScalingMachineP.
+Local Open Scope F_scope.
+
+(** the radius handed to the impedance models is the radius in use: the option BendingRadius when positive, the
+    iso-magnetic radius c/(2 pi f_rev) otherwise *)
+Theorem C10_main_bending_radius_in_use :
+  forall (K : Fld) (O : Ops K) (L : leaf -> K) (B : bleaf -> bool),
+    gen_R_bend K O L B = radius_in_use K O (L C_c) (L C_two_pi) (L O_getRevolutionFrequency) (L O_getBendingRadius).
+Proof. exact radius_link. Qed.
+Print Assumptions C10_main_bending_radius_in_use.
+
+(** V0 is the radiation loss per turn e gamma^4/(3 epsilon0 R) for THAT radius - whichever branch is taken *)
+Theorem C10_main_radiation_loss_for_radius_in_use :
+  forall (K : Fld) (O : Ops K) (L : leaf -> K) (B : bleaf -> bool),
+    L C_me <> 0 -> L C_epsilon0 <> 0 -> L C_c <> 0 -> L C_two_pi <> 0 -> L O_getRevolutionFrequency <> 0 ->
+    gen_R_bend K O L B <> 0 ->
+    gen_sinrf_V0 K O L B = radiation_loss K (L C_e) (L C_me) (L C_epsilon0) (L O_getBeamEnergy) (gen_R_bend K O L B).
+Proof. exact loss_link. Qed.
+Print Assumptions C10_main_radiation_loss_for_radius_in_use.
+
+(** the whole chain in the stored parameters alone, every route (BendingRadius given or not, alpha0 or synchrotron
+    frequency given, StepsPerTs or StepsPerRevolution): the inputs of C10_unit_meter ... C10_unit_volt_watt
+    ([a_Meter], [a_ElectronVolt], [t_sync], [dt], [revolutionpart] of Model/H5Units.v) are what main() passes on *)
+Theorem C10_main_machine_chain :
+  forall (K : Fld) (O : Ops K) (L : leaf -> K) (B : bleaf -> bool),
+    let c := L C_c in let tpi := L C_two_pi in let frev := L O_getRevolutionFrequency in
+    let E0 := L O_getBeamEnergy in let sE := L O_getEnergySpread in let H := L O_getHarmonicNumber in
+    let R := radius_in_use K O c tpi frev (L O_getBendingRadius) in
+    let V0 := radiation_loss K (L C_e) (L C_me) (L C_epsilon0) E0 R in
+    let Veff := effective_voltage K O (L O_getRFVoltage) V0 in
+    let fs := sync_freq K O tpi frev H E0 (L O_getAlpha0) Veff (L O_getSyncFreq) in
+    let steps := steps_per_period K O frev fs (L O_getStepsPerTrev) (L O_getStepsPerTsync) in
+    L C_me <> 0 -> L C_epsilon0 <> 0 -> c <> 0 -> tpi <> 0 -> frev <> 0 -> H <> 0 ->
+    R <> 0 -> Veff <> 0 -> fs <> 0 -> steps <> 0 ->
+    gen_R_bend K O L B = R /\ gen_sinrf_V0 K O L B = V0 /\ gen_sinrf_V_RF K O L B = Veff /\
+    gen_t_sync K O L B = t_sync K fs /\
+    gen_ps_Meter K O L B = a_Meter K c E0 sE H frev Veff fs /\
+    gen_ps_ElectronVolt K O L B = a_ElectronVolt K E0 sE /\
+    gen_dt K O L B = dt K fs steps /\
+    gen_revolutionpart K O L B = revolutionpart K frev fs steps /\
+    gen_rdtn_revolutionpart K O L B = revolutionpart K frev fs steps /\
+    gen_dynrf_revolutionpart K O L B = revolutionpart K frev fs steps /\
+    gen_sinrf_revolutionpart K O L B = revolutionpart K frev fs steps /\
+    gen_h5_time K O L B * steps = L S_simulationstep /\
+    gen_h5_f_rev K O L B = frev /\ gen_f_rev K O L B = frev.
+Proof. exact machine_chain. Qed.
+Print Assumptions C10_main_machine_chain.
+
+(** non-vacuity (rationals, the executable interpretation of the comparisons): e = 3, E0/m_e = 2, epsilon0 = 1; with
+    BendingRadius = 4 the loss is 3*16/(3*4) = 4, with BendingRadius = -1 the radius is c/(2 pi f_rev) = 1 and the loss 16 *)
+Example C10_machine_example :
+  let L r := fun l => match l with O_getBendingRadius => r | O_getBeamEnergy => Q2Qc 2 | C_e => Q2Qc 3 | _ => Q2Qc 1 end in
+  let B := fun _ : bleaf => false in
+  gen_R_bend QcF QcOps (L (Q2Qc 4)) B = Q2Qc 4 /\ gen_sinrf_V0 QcF QcOps (L (Q2Qc 4)) B = Q2Qc 4 /\
+  gen_R_bend QcF QcOps (L (Q2Qc (-1))) B = Q2Qc 1 /\ gen_sinrf_V0 QcF QcOps (L (Q2Qc (-1))) B = Q2Qc 16.
+Proof. cbv zeta. repeat split; apply Qc_is_canon; reflexivity. Qed.
+End MachineChain.
+
 (** ** Tie of the file layer to the source by translation (second wave).  [Gen/Gen_H5Index.v] is
     regenerated from src/IO/HDF5File.cpp on every run (translate/h5index2coq.py): the vectors
     [_appendData] hands to the HDF5 library, the initial extents of every dataset, and for every
